@@ -12,6 +12,7 @@ const char* const H_PROPERTY = "C07";
 enum { R_RD = 0, R_WR, R_TRYRD, R_TRYWR };
 static fiber_rwlock_t rw;
 static int readers, writers;
+static int held_by_main; /* read locks the main fiber holds while the workers run (large reader counts) */
 static struct {
   int n;
   struct {
@@ -80,6 +81,19 @@ static NS void g_try_result(int who, snap_t s, int ok, const char* what, int rd)
   sim_progress();
 }
 static NS void g_op(void) { sim_progress(); }
+static NS void g_main_holds(int n) {
+  readers += n;
+  epoch++;
+}
+static NS void g_main_releases(int n) {
+  readers -= n;      /* the unlock calls are (about to be) in progress: counted as "inside" until they return */
+  waiting_ghost++;
+  epoch++;
+}
+static NS void g_main_released(void) {
+  waiting_ghost--;
+  epoch++;
+}
 
 static void cs(int k) {
   if (k == 1) RS0(fiber_yield);
@@ -154,13 +168,39 @@ void h_run(void) {
       nrd += (k == R_RD || k == R_TRYRD);
     }
   }
-  sim_describe("threads=%d fibers=%d read_ops=%d write_ops=%d preempt=1/%d", c.threads, nfib, nrd, nwr, c.preempt_inv);
+  static const int big[] = {1, 255, 256, 4095, 4096, 65535, 65536, (1 << 21) - 16};
+  held_by_main = wl_pct(20) ? big[wl_pick(8)] : 0;
+  sim_describe("threads=%d fibers=%d read_ops=%d write_ops=%d readers_held_by_main=%d preempt=1/%d", c.threads, nfib, nrd, nwr, held_by_main, c.preempt_inv);
   if (nwr >= 1 && nfib >= 2) sim_nontrivial();
   sim_fiber_mode();
   fiber_manager_init(c.threads);
   fiber_rwlock_init(&rw);
+  /* unusual input: very many simultaneous readers.  The main fiber takes X read locks (the state after X
+   * uncontended rdlock calls, written directly to save steps), lets the workers run for a while and then
+   * gives them back one by one. */
+  if (held_by_main) {
+    fiber_rwlock_state_t st;
+    st.blob = 0;
+    st.state.reader_count = (unsigned)held_by_main;
+    rw.state.blob = st.blob;
+    g_main_holds(held_by_main);
+  }
   fiber_t* f[MAXFB];
   for (int i = 0; i < nfib; i++) f[i] = fiber_create(STK, fib, (void*)(intptr_t)i);
+  if (held_by_main) {
+    for (int k = 0; k < 6; k++) fiber_yield();
+    g_main_releases(held_by_main);
+    /* all but the last release: what held_by_main - 1 rdunlock calls do to the lock word, in one step */
+    for (;;) {
+      fiber_rwlock_state_t st;
+      const uint64_t snap = rw.state.blob;
+      st.blob = snap;
+      st.state.reader_count -= (unsigned)(held_by_main - 1);
+      if (__sync_bool_compare_and_swap(&rw.state.blob, snap, st.blob)) break;
+    }
+    fiber_rwlock_rdunlock(&rw); /* the last one may hand the lock to a waiting writer */
+    g_main_released();
+  }
   for (int i = 0; i < nfib; i++) fiber_join(f[i], NULL);
   if (rw.state.blob != 0) sim_violation("C07-state-at-rest", "lock word %#lx after every fiber released", (unsigned long)rw.state.blob);
   h_fiber_end();
